@@ -67,43 +67,43 @@ fn in2(a: Ipv4Addr) -> bool {
 const K1_TEXT: &str = "---
 dhcp-policies:
   - match-subnet: 192.0.2.0/24
-    apply-range: {start: 192.0.2.10, end: 192.0.2.11}
+    apply-range: {start: 192.0.2.9, end: 192.0.2.10}
 ";
 const K2_TEXT: &str = "---
 dhcp-policies:
   - match-subnet: 192.0.2.0/24
-    apply-range: {start: 192.0.2.11, end: 192.0.2.12}
+    apply-range: {start: 192.0.2.10, end: 192.0.2.11}
 ";
 const K3_TEXT: &str = "---
 dhcp-policies:
   - match-subnet: 192.0.2.0/24
-    apply-range: {start: 192.0.2.10, end: 192.0.2.11}
+    apply-range: {start: 192.0.2.9, end: 192.0.2.10}
   - match-subnet: 198.51.100.0/24
     apply-address: 198.51.100.10
 ";
 const K4_TEXT: &str = "---
 dhcp-policies:
   - match-subnet: 192.0.2.0/24
-    apply-range: {start: 192.0.2.10, end: 192.0.2.11}
+    apply-range: {start: 192.0.2.9, end: 192.0.2.10}
     policies:
       - match-hardware-address: 02:00:00:00:00:0a
-        apply-address: 192.0.2.10
+        apply-address: 192.0.2.9
 ";
 const K5_TEXT: &str = "---
 dhcp-policies:
   - match-subnet: 192.0.2.0/24
-    apply-address: 192.0.2.10
+    apply-address: 192.0.2.9
 ";
 
 fn k1_pool(s: Ipv4Addr, _c: &[u8]) -> Option<Vec<Ipv4Addr>> {
-    if in1(s) { Some(vec![ip("192.0.2.10"), ip("192.0.2.11")]) } else { None }
+    if in1(s) { Some(vec![ip("192.0.2.9"), ip("192.0.2.10")]) } else { None }
 }
 fn k2_pool(s: Ipv4Addr, _c: &[u8]) -> Option<Vec<Ipv4Addr>> {
-    if in1(s) { Some(vec![ip("192.0.2.11"), ip("192.0.2.12")]) } else { None }
+    if in1(s) { Some(vec![ip("192.0.2.10"), ip("192.0.2.11")]) } else { None }
 }
 fn k3_pool(s: Ipv4Addr, _c: &[u8]) -> Option<Vec<Ipv4Addr>> {
     if in1(s) {
-        Some(vec![ip("192.0.2.10"), ip("192.0.2.11")])
+        Some(vec![ip("192.0.2.9"), ip("192.0.2.10")])
     } else if in2(s) {
         Some(vec![ip("198.51.100.10")])
     } else {
@@ -112,13 +112,13 @@ fn k3_pool(s: Ipv4Addr, _c: &[u8]) -> Option<Vec<Ipv4Addr>> {
 }
 fn k4_pool(s: Ipv4Addr, c: &[u8]) -> Option<Vec<Ipv4Addr>> {
     if in1(s) {
-        if c == MAC_A { Some(vec![ip("192.0.2.10")]) } else { Some(vec![ip("192.0.2.11")]) }
+        if c == MAC_A { Some(vec![ip("192.0.2.9")]) } else { Some(vec![ip("192.0.2.10")]) }
     } else {
         None
     }
 }
 fn k5_pool(s: Ipv4Addr, _c: &[u8]) -> Option<Vec<Ipv4Addr>> {
-    if in1(s) { Some(vec![ip("192.0.2.10")]) } else { None }
+    if in1(s) { Some(vec![ip("192.0.2.9")]) } else { None }
 }
 
 pub fn all_cfgs() -> Result<Vec<Cfg>, String> {
@@ -780,10 +780,10 @@ pub fn deep_roots() -> Vec<State> {
     let r = |ipa: &str, c: &Vec<u8>, start: i64, len: i64| Row { ip: ip(ipa), client: c.clone(), start, expiry: start + len };
     vec![
         vec![],
-        vec![r("192.0.2.10", &a, -40_000, 86_400)],
-        vec![r("192.0.2.10", &a, -100_000, 86_400)],
-        vec![r("192.0.2.10", &a, -30_000, 86_400), r("192.0.2.11", &b, -100, 300)],
-        vec![r("192.0.2.11", &a, -50_000, 60_000), r("192.0.2.10", &b, -90_000, 86_400)],
+        vec![r("192.0.2.9", &a, -40_000, 86_400)],
+        vec![r("192.0.2.9", &a, -100_000, 86_400)],
+        vec![r("192.0.2.9", &a, -30_000, 86_400), r("192.0.2.10", &b, -100, 300)],
+        vec![r("192.0.2.10", &a, -50_000, 60_000), r("192.0.2.9", &b, -90_000, 86_400)],
     ]
 }
 
@@ -922,6 +922,176 @@ pub fn bfs_from(cfgs: &[Cfg], alpha: &Alphabet, roots: &[State], max_depth: u32,
     ))
 }
 
+// ---------------------------------------------------------------------------
+// Long-lived histories: the same oracles on a Pool that is NOT reopened between messages
+// ---------------------------------------------------------------------------
+// The BFS above rebuilds the Pool from the stored rows at every transition (a restart between any
+// two messages), which is what makes exact-state deduplication sound -- but it can never see state
+// the Pool object itself carries from one message to the next (a memo, a cached statement result,
+// a cursor).  This part runs whole histories on ONE Pool, path by path (no deduplication: the
+// hidden state depends on the path), judges every step with the same oracles, and also compares
+// every step with the same message on a Pool rebuilt from the rows (the restart differential,
+// reported under C18).
+
+pub struct LongStats {
+    pub histories: u64,
+    pub steps: u64,
+    pub depth: u32,
+    pub differential_mismatches: u64,
+}
+
+fn res_sig(r: &StepResult) -> String {
+    match r {
+        StepResult::Reply(o) => {
+            let mut opts: Vec<_> = o.options.iter().collect();
+            opts.sort();
+            format!("reply yiaddr={} opts={:?}", o.yiaddr, opts)
+        }
+        StepResult::Error(e) => format!("error {e}"),
+        StepResult::Panic(m, l) => format!("panic {m} at {l}"),
+    }
+}
+
+/// Run one history on one long-lived Pool.  Returns (message steps executed, findings).
+pub fn run_longlived(initial: &State, ops: &[&Op], cfgs: &[Cfg], differential: bool, verbose: bool) -> Result<(u64, Vec<Found>), String> {
+    let mut now = NOW0;
+    clock::set_secs(now as u64);
+    let mut p = pool_from_state(initial, now)?;
+    let mut out = vec![];
+    let mut n = 0;
+    for (k, op) in ops.iter().enumerate() {
+        match op {
+            Op::Tick(dt) => {
+                now += dt;
+                clock::set_secs(now as u64);
+            }
+            Op::Msg(m) => {
+                n += 1;
+                let pre = read_state(&mut p, now)?;
+                let res = run_msg(&mut p, m, cfgs);
+                let post = read_state(&mut p, now)?;
+                if verbose {
+                    eprintln!("  step {}\n    -> {:?}\n    rows {}", op_json(op, cfgs), res, state_json(&post));
+                }
+                let mk_case = || {
+                    let mut c = case_json_from(initial, &ops[..=k], cfgs);
+                    c["long_lived"] = json!(true);
+                    c
+                };
+                for jd in judge(&pre, m, &res, &post, cfgs) {
+                    let mut v = Violation::new(jd.oracle, format!("on a long-lived store, step {k}: {}", jd.what), mk_case());
+                    for (kk, val) in jd.sig {
+                        v = v.sig(kk, val);
+                    }
+                    v = v.sig("msg", if m.mtype == 1 { "DISCOVER" } else if m.mtype == 3 { "REQUEST" } else { "other" });
+                    out.push(Found { property: jd.property, v });
+                }
+                if !differential {
+                    continue;
+                }
+                // restart differential: the same message on a Pool rebuilt from the rows
+                // (at the same absolute time, so no time-shift argument is needed here)
+                let mut pf = pool_from_state(&pre, now)?;
+                let res_f = run_msg(&mut pf, m, cfgs);
+                let post_f = read_state(&mut pf, now)?;
+                if res_sig(&res) != res_sig(&res_f) || post != post_f {
+                    let v = Violation::new(
+                        "long-lived-differs-from-restarted",
+                        format!("step {k}: uninterrupted server: {} rows {}; server restarted just before this message: {} rows {}", res_sig(&res), state_json(&post), res_sig(&res_f), state_json(&post_f)),
+                        mk_case(),
+                    )
+                    .sig("part", "restart");
+                    out.push(Found { property: "C18", v });
+                    // the two servers have parted ways; later steps would only repeat the difference
+                    break;
+                }
+            }
+        }
+    }
+    Ok((n, out))
+}
+
+/// Every history of exactly `depth` operations (so every shorter one as a prefix) from every root.
+pub fn longlived_histories(cfgs: &[Cfg], alpha: &Alphabet, roots: &[State], depth: u32, differential: bool) -> Result<(LongStats, Vec<Found>), String> {
+    use rayon::prelude::*;
+    let n = alpha.ops.len();
+    // shard by (root, first op)
+    let shards: Vec<(usize, usize)> = (0..roots.len()).flat_map(|r| (0..n).map(move |a| (r, a))).collect();
+    let results: Vec<Result<(u64, u64, u64, Vec<Found>), String>> = shards
+        .par_iter()
+        .map(|(ri, first)| {
+            let mut hist = vec![*first];
+            let mut found: Vec<Found> = vec![];
+            let (mut histories, mut steps, mut mism) = (0u64, 0u64, 0u64);
+            // odometer over the remaining depth-1 positions
+            let mut idx = vec![0usize; depth.saturating_sub(1) as usize];
+            loop {
+                hist.truncate(1);
+                hist.extend(idx.iter().copied());
+                let ops: Vec<&Op> = hist.iter().map(|i| &alpha.ops[*i]).collect();
+                let (k, fs) = run_longlived(&roots[*ri], &ops, cfgs, differential, false)?;
+                histories += 1;
+                steps += k;
+                for f in fs {
+                    if f.v.oracle == "long-lived-differs-from-restarted" {
+                        mism += 1;
+                    }
+                    if found.iter().filter(|x| x.property == f.property && x.v.oracle == f.v.oracle).count() < 2 {
+                        found.push(f);
+                    }
+                }
+                // next
+                let mut pos = idx.len();
+                loop {
+                    if pos == 0 {
+                        return Ok((histories, steps, mism, found));
+                    }
+                    pos -= 1;
+                    idx[pos] += 1;
+                    if idx[pos] < n {
+                        break;
+                    }
+                    idx[pos] = 0;
+                }
+            }
+        })
+        .collect();
+    let mut st = LongStats { histories: 0, steps: 0, depth, differential_mismatches: 0 };
+    let mut all = vec![];
+    for r in results {
+        let (h, s, m, f) = r?;
+        st.histories += h;
+        st.steps += s;
+        st.differential_mismatches += m;
+        all.extend(f);
+    }
+    clock::unset();
+    Ok((st, all))
+}
+
+/// The alphabet of the long-lived part: pool changes (K1/K2), two interfaces (K3), a reservation
+/// (K4), two clients, one named address, a tick past the minimum lease and a long one.
+pub fn longlived_alphabet(cfgs: &[Cfg], thorough: bool) -> Alphabet {
+    let ticks: &[i64] = if thorough { &[150, 301, 30000] } else { &[301, 30000] };
+    build_alphabet(cfgs, &AlphabetSpec { cfgs: &["K1", "K2", "K3", "K4"], clients: 2, addrs: &["192.0.2.9"], ticks })
+}
+
+/// Roots of the long-lived part: the empty store and the two-client deep root.
+pub fn longlived_roots() -> Vec<State> {
+    let d = deep_roots();
+    vec![d[0].clone(), d[3].clone()]
+}
+
+/// Largest depth d with |alphabet|^d * d * roots <= budget (at least 2).
+pub fn longlived_depth(alpha: &Alphabet, roots: usize, budget_steps: f64) -> u32 {
+    let n = alpha.ops.len() as f64;
+    let mut d = 2u32;
+    while n.powi(d as i32 + 1) * (d as f64 + 1.0) * roots as f64 <= budget_steps {
+        d += 1;
+    }
+    d
+}
+
 /// Replay one case (list of ops from the empty store); returns violations of every step.
 pub fn replay_case(case: &Value, cfgs: &[Cfg]) -> Result<Vec<Found>, String> {
     let mut st: State = vec![];
@@ -938,6 +1108,13 @@ pub fn replay_case(case: &Value, cfgs: &[Cfg]) -> Result<Vec<Found>, String> {
     }
     let mut out = vec![];
     let ops = case["ops"].as_array().ok_or("case.ops missing")?;
+    if case["long_lived"].as_bool() == Some(true) {
+        let parsed: Vec<Op> = ops.iter().map(|o| op_from_json(o, cfgs)).collect::<Result<_, _>>()?;
+        let refs: Vec<&Op> = parsed.iter().collect();
+        let (_, found) = run_longlived(&st, &refs, cfgs, true, true)?;
+        clock::unset();
+        return Ok(found);
+    }
     let mut done: Vec<Op> = vec![];
     for o in ops {
         let op = op_from_json(o, cfgs)?;
